@@ -16,7 +16,7 @@ from props.common import Result, run_replay, hexs, unhex, known_findings
 from props.conn_common import *
 from oracles import line_grammar as G
 from oracles.mpd_tokenizer import ConcreteDecider
-from models_io import Transport
+from models_io import Transport, drive
 
 # ---------------------------------------------------------------------------- stream templates
 WF = [False]
@@ -370,13 +370,23 @@ def run_c09(P, res, pl):
         cuts = [] if seg == 0 else (list(range(1, n)) if seg == 1 else [max(1, n // 2)])
         I._cuts = cuts
         co, outs, tr, conn = run_session(I, pl['flav'], body, cuts, pl['cap'], greeting=greeting)
+        # "receiving never panics": a caller may call receive again after an error (the API does not consume the connection)
+        I._again = None
+        if conn is not None and outs and outs[-1].kind in ('invalid', 'eof', 'ioerror'):
+            I._again = 'started'
+            path = 'mpd_protocol::connection::%s::<%s>::receive' % ('Connection' if pl['flav'] == 'sync' else 'AsyncConnection', T)
+            x = I.call_repo(path, [Ref(conn)])
+            if pl['flav'] != 'sync':
+                x = drive(I, x)
+            I._again = classify(x).kind
         return want, co, outs, tr
     for pr in explore(P, harness):
         res.paths += 1
         ctx = pr.ctx
         I = pr.interp
         body = I._body
-        rec = lambda: record(ctx, body, {'flav': pl['flav'], 'cuts': getattr(I, '_cuts', []), 'cap': pl['cap'], 'check': 'robust', 'rawgreeting': t.startswith('greetfree')})
+        rec = lambda: record(ctx, body, {'flav': pl['flav'], 'cuts': getattr(I, '_cuts', []), 'cap': pl['cap'], 'check': 'robust', 'rawgreeting': t.startswith('greetfree'),
+                                         'again': getattr(I, '_again', None) is not None})
         if pr.kind == 'panic':
             res.cls('panic', nontrivial=True)
             res.violations.append({'what': 'panic on peer bytes: ' + pr.error.msg[:120], 'input': rec()}); continue
@@ -544,8 +554,9 @@ def native_outcomes(out):
             outs.append(cur); cur = None
     return outs
 
-def native_session(stream, flav, cuts, small, max_receives=5):
-    out = run_replay(['recv', flav, hexs(stream), str(max_receives)] + [str(c) for c in cuts], small=small)
+def native_session(stream, flav, cuts, small, max_receives=5, again=False):
+    # `<n>+`: after an error receive is called once more (it must not panic)
+    out = run_replay(['recv', flav, hexs(stream), str(max_receives) + ('+' if again else '')] + [str(c) for c in cuts], small=small)
     if 'panic' in out:
         return 'panic', [], out
     cv = out.get('connect', ['?'])[0]
@@ -570,7 +581,7 @@ def replay_for(prop, rec):
     full = stream if raw else bytes(GREETING) + stream
     g = 0 if raw else len(GREETING)
     cuts = sorted(set(([g] if g else []) + [g + c for c in inp.get('cuts', [])]))
-    co, outs, out = native_session(full, inp['flav'], cuts, small)
+    co, outs, out = native_session(full, inp['flav'], cuts, small, again=bool(inp.get('again')))
     if co == 'panic':
         return True, 'native run panics: ' + unhex(out['panic'][0]).decode('utf-8', 'replace')[:100]
     if check == 'segmentation':
